@@ -4,7 +4,7 @@
   `withBuiltins s`; the response is the one `Exec.execute s` computes (`execute_withBuiltins`), and the world is typed
   against `s` (`worldTyped_withBuiltins`).
 -/
-import PyGqlModel.Props.C05_reads
+import PyGqlModel.Lemmas.C05Reads
 import PyGqlModel.Props.C05_schema
 
 set_option linter.unusedSimpArgs false
@@ -25,6 +25,17 @@ private theorem conforms_withBuiltins (s : SchemaD) : ∀ t, Conforms (withBuilt
   | nonNull t ih =>
     funext v
     simp only [Conforms, ih]
+
+/-- **execute_withBuiltins** (proved in `Lemmas/C05Reads.lean` from `execute_congr`: the executor model reads the schema only
+    through `kindOf`, `fieldOf`, `isPossibleType`, `rootType`, `serializeLeaf`, `query`; each is proved invariant in
+    `Lemmas/C05Builtins.lean`): listing the built-in scalars in the description changes no response -/
+theorem execute_lists_builtins (s : SchemaD) (doc : Doc) (vars : Vars) (w : World) (op : Option String) (fuel cf : Nat) :
+    execute (withBuiltins s) doc vars w op fuel cf = execute s doc vars w op fuel cf :=
+  execute_withBuiltins s doc vars w op fuel cf
+
+/-- the executor-side schema checks have the same value on both descriptions -/
+theorem schemaChecksExec_lists_builtins (s : SchemaD) : schemaChecksExecB (withBuiltins s) = schemaChecksExecB s :=
+  schemaChecksExec_withBuiltins s
 
 /-- a world typed against the executed description is typed against the one with the built-ins listed -/
 theorem worldTyped_withBuiltins (s : SchemaD) (w : World) (h : WorldTyped s w) : WorldTyped (withBuiltins s) w := by
